@@ -323,7 +323,15 @@ pub fn parse_amount(input: &str) -> Result<f64, ParseError> {
 
 /// Parse an amount or rate of format `<max_len>d` (e.g. `17d` for field 19, `12d` for rates)
 pub fn parse_amount_with_length(input: &str, max_len: usize) -> Result<f64, ParseError> {
-    if input.len() > max_len {
+    // The decimal separator is part of the format and counts towards its length: an amount
+    // written without one may only use max_len - 1 digits, so that it still fits when it is
+    // written back with its separator.
+    let limit = if input.contains([',', '.']) {
+        max_len
+    } else {
+        max_len.saturating_sub(1)
+    };
+    if input.len() > limit {
         return Err(ParseError::InvalidFormat {
             message: format!(
                 "Invalid amount format: '{}' exceeds {} characters",
